@@ -179,3 +179,8 @@ Definition b64_decode_obs (s : str) : str := b64_result_bytes (b64_decode s).
 
 Definition is_byte (c : N) : Prop := c < 256.
 Definition bytes (s : str) : Prop := Forall is_byte s.
+
+(* base64Encoder.Encode / uriEncoder.Encode start with
+   node.guessTagFromCustomType() != "!!str" => error: only strings are encoded *)
+Definition encode_string_node {A : Type} (f : str -> A) (tag_is_str : bool) (v : str) : option A :=
+  if tag_is_str then Some (f v) else None.
